@@ -1,3 +1,149 @@
 import Cppcms.Common
-/-! Line-protocol driver for C18 (stub: model not written yet). -/
-def main : IO Unit := Cppcms.lineLoop () (fun s _ => (s, "unimplemented"))
+import Cppcms.C18.Model
+import Cppcms.C18.Spec
+import Cppcms.C18.Witness
+/-! Line-protocol driver for C18.  One line = one script over a fresh directory (ops separated
+by `;`, see `harness/c18.cpp`); `J …` lines evaluate the judge predicates of `Spec.lean` on
+outputs of the implementation; `witness N` prints the script replaying witness N of
+`Witness.lean` (the bytes of `Props.torn_counterexample*`). -/
+open Cppcms Cppcms.C18
+
+structure St where
+  now : Int := 0
+  dir : Dir := Dir.empty
+  names : List String := []       -- every name ever created, for `ls`
+  out : List String := []
+
+def nameBytes (s : String) : Bytes := s.toUTF8.toList
+
+def goodName (s : String) : Bool := s.length > 0 && s.length ≤ 64 && s.all Char.isAlphanum
+
+def showLoad : Option (Int × Bytes) → String
+  | none => "none"
+  | some (t, d) => s!"ok {t} {toHex d}"
+
+/-- the `write()` calls a (possibly crashing) save performs: `LEN@OFF,…` -/
+def writeLog (ws : List Bytes) (k j : Nat) : String :=
+  let full := ws.take k
+  let part := (ws.getD k []).take j
+  let calls := full ++ (if part.isEmpty then [] else [part])
+  let rec go (off : Nat) : List Bytes → List String
+    | [] => []
+    | w :: r => s!"{w.length}@{off}" :: go (off + w.length) r
+  let l := go 0 calls
+  if l.isEmpty then "-" else ",".intercalate l
+
+def parseMask (s : String) : Option (Nat → Bool) :=
+  if s == "all" then some (fun _ => true)
+  else if s == "-" then some (fun _ => false)
+  else
+    let parts := s.splitOn ","
+    match parts.mapM String.toNat? with
+    | some l => some (fun i => l.contains i)
+    | none => none
+
+def insertSorted (s : String) : List String → List String
+  | [] => [s]
+  | x :: xs => if s == x then x :: xs else if s < x then s :: x :: xs else x :: insertSorted s xs
+
+def runOp (st : St) (op : List String) : Option St :=
+  let emit (st : St) (s : String) : St := { st with out := s :: st.out }
+  match op with
+  | ["flock", _] => some (emit st "ok")
+  | ["now", n] => n.toInt?.map fun v => emit { st with now := v } "ok"
+  | ["put", name, h] =>
+    if !goodName name then none else
+    (parseHex h).map fun d => emit { st with dir := Dir.put st.dir (nameBytes name) d, names := insertSorted name st.names } "ok"
+  | ["save", sid, t, h] =>
+    if !goodName sid || sid.length < 4 then none else
+    match t.toInt?, parseHex h with
+    | some t, some d =>
+      let ws := saveWrites t d
+      some (emit { st with dir := save (nameBytes sid) t d st.dir, names := insertSorted sid st.names } ("w=" ++ writeLog ws ws.length 0))
+    | _, _ => none
+  | ["csave", sid, t, h, k, j, s, mask] =>
+    if !goodName sid || sid.length < 4 then none else
+    match t.toInt?, parseHex h, k.toNat?, j.toNat?, s.toNat?, parseMask mask with
+    | some t, some d, some k, some j, some s, some T =>
+      if s == 0 then none else
+      some (emit { st with dir := crashSave s (nameBytes sid) t d k j T st.dir, names := insertSorted sid st.names }
+        ("w=" ++ writeLog (saveWrites t d) k j))
+    | _, _, _, _, _, _ => none
+  | ["load", sid] =>
+    if !goodName sid || sid.length < 4 then none else
+    let (r, dir') := load st.now (nameBytes sid) st.dir
+    some (emit { st with dir := dir' } (showLoad r))
+  | ["probe", name] =>
+    if !goodName name then none else
+    match st.dir (nameBytes name) with
+    | none => some (emit st "none")
+    | some f => some (emit st (showLoad (readFromFile st.now f)))
+  | ["remove", sid] =>
+    if !goodName sid || sid.length < 4 then none else
+    some (emit { st with dir := remove (nameBytes sid) st.dir } "ok")
+  | ["gc"] => some (emit { st with dir := gc st.now st.dir } "ok")
+  | ["ls"] =>
+    let ents := st.names.filterMap fun n => (st.dir (nameBytes n)).map fun f => s!"{n}:{toHex f}"
+    some (emit st (if ents.isEmpty then "-" else ",".intercalate ents))
+  | _ => none
+
+def splitOps (ws : List String) : List (List String) :=
+  let rec go (cur : List String) (acc : List (List String)) : List String → List (List String)
+    | [] => (cur.reverse :: acc).reverse
+    | ";" :: r => go [] (cur.reverse :: acc) r
+    | x :: r => go (x :: cur) acc r
+  (go [] [] ws).filter (· ≠ [])
+
+def runScript (ws : List String) : String :=
+  let rec go (st : St) : List (List String) → Option St
+    | [] => some st
+    | op :: r => match runOp st op with
+      | none => none
+      | some st' => go st' r
+  match go {} (splitOps ws) with
+  | none => "bad-op"
+  | some st => if st.out.isEmpty then "-" else " | ".intercalate st.out.reverse
+
+def parseRes : List String → Option (Option (Int × Bytes) × List String)
+  | "none" :: r => some (none, r)
+  | "ok" :: t :: h :: r => match t.toInt?, parseHex h with
+    | some t, some d => some (some (t, d), r)
+    | _, _ => none
+  | _ => none
+
+def witnessScript (n : String) : String :=
+  let sid := "0123456789abcdef0123456789abcdef"
+  if n == "1" then
+    s!"now {Witness.now1} ; save {sid} {Witness.oldT1} {toHex Witness.old1} ; probe {sid} ; csave {sid} {Witness.newT1} {toHex Witness.new1} 1 {Witness.tear1} 512 all ; load {sid} ; ls"
+  else if n == "2" then
+    s!"now {Witness.now1} ; save {sid} {Witness.oldT1} {toHex Witness.old2} ; probe {sid} ; csave {sid} {Witness.newT1} {toHex Witness.new2} 2 0 512 0 ; load {sid} ; ls"
+  else "bad-op"
+
+def witnessExpect (n : String) : String :=
+  if n == "1" then showLoad (some (Witness.newT1, Witness.mix1))
+  else if n == "2" then showLoad (some (Witness.newT1, Witness.mix2))
+  else "bad-op"
+
+def step (_ : Unit) (line : String) : Unit × String :=
+  let r : String :=
+    match words line with
+    -- judge: J crash <newT> <newHex> <oldLoad…> <res…>
+    | "J" :: "crash" :: t :: h :: rest =>
+      (match t.toInt?, parseHex h, parseRes rest with
+       | some t, some d, some (oldLoad, rest') =>
+         (match parseRes rest' with
+          | some (res, []) => boolStr (Spec.allowedOutcome res (t, d) oldLoad)
+          | _ => "bad-op")
+       | _, _, _ => "bad-op")
+    -- judge: J gc <now> <name> <contentHex> <live 0|1> <kept 0|1>
+    | ["J", "gc", now, name, h, live, kept] =>
+      (match now.toInt?, parseHex h with
+       | some now, some f => boolStr (Spec.gcEntryOk now (nameBytes name) f (live == "1") (kept == "1"))
+       | _, _ => "bad-op")
+    | ["crc32", h] => (match parseHex h with | some d => toString (crc32 d) | none => "bad-op")
+    | ["witness", n] => witnessScript n
+    | ["witness-expect", n] => witnessExpect n
+    | ws => runScript ws
+  ((), r)
+
+def main : IO Unit := lineLoop () step
